@@ -218,9 +218,7 @@ func (p *AppTimeReqPayload) UnmarshalBinary(data []byte) error {
 
 	p.DeviceTime = binary.LittleEndian.Uint32(data[0:4])
 	p.Param.TokenReq = uint8(data[4] & 0x0f)
-	if data[4]&(1<<4) != 0 {
-		p.Param.AnsRequired = true
-	}
+	p.Param.AnsRequired = data[4]&(1<<4) != 0
 
 	return nil
 }
